@@ -5,6 +5,7 @@ import (
 	"errors"
 	"fmt"
 	"os"
+	"runtime/debug"
 	"sort"
 	"strings"
 	"time"
@@ -39,8 +40,8 @@ var seqChecks = map[string]seqCheck{
 	"C13": {families: []string{"core", "cfg", "roll", "inputs"}, pre: runCodecx},
 	"C15": {families: []string{"trim"}},
 	"C16": {families: []string{"kv", "kv-rx"}},
-	"C17": {families: []string{"versions"}},
-	"C20": {families: []string{"backup"}},
+	"C17": {families: []string{"versions", "versions-mid"}},
+	"C20": {families: []string{"backup"}, post: runBackupSched},
 }
 
 func tierBudget(tier string) time.Duration {
@@ -269,6 +270,12 @@ func replaySched(prop string, raw json.RawMessage) int {
 	if prop == "C18" {
 		judge = schedx.JudgeBlocking
 	}
+	if prop == "C06" {
+		judge = schedx.JudgeDurable
+	}
+	if prop == "C11" {
+		judge = schedx.JudgeIndexFiles
+	}
 	rc := 0
 	for i := 0; i < 5; i++ {
 		x, err := schedx.Exec(rep.Program, rep.Choices, false)
@@ -379,9 +386,9 @@ func runDmg(prop, tier string) int {
 			}
 		}
 	} else {
-		shapes := []int{0, 1, 2, 3}
+		shapes := []int{0, 1, 2, 3, 5}
 		if tier == "thorough" {
-			shapes = []int{0, 1, 2, 3, 4}
+			shapes = []int{0, 1, 2, 3, 4, 5}
 		}
 		for _, si := range shapes {
 			_, _, files, err := dmgx.Base14(root+"/b", dmgx.Shapes14[si])
@@ -458,6 +465,12 @@ func runCrash(prop, tier string) int {
 	defer pool.Close()
 	st := &seqx.Stats{FPs: map[uint64]struct{}{}}
 	f := seqx.Families["crash"]
+	if prop == "C05" {
+		// crash points cost less than tail-loss combinations: C05 goes one level deeper in the quick tier
+		fc := *f
+		fc.Depth = map[string]int{"quick": f.Depth["quick"] + 1, "thorough": f.Depth["thorough"]}
+		f = &fc
+	}
 	seqx.Explore(r, pool, f, tier, time.Now().Add(tierBudget(tier)), st)
 	classes := 0
 	var classList []string
@@ -486,6 +499,9 @@ func runCrash(prop, tier string) int {
 		r.Cov["rule"] = "BFS over histories of the crash family (publish with rollover, every single delete, whole-segment deletes, Sync, reopen plain/Recover/eager migration, Migrate) for 4 configurations; for the last letter of every transition the file-system journal recorded underneath the real code yields one crash image per event prefix plus torn variants of every record/index append (every byte up to 48-byte appends, boundary set beyond), and for short histories every event prefix and torn append of the recovering Open itself (depth 2); every image is materialised, opened with Recover, observed through all views, recovered again, appended to and checked; distinct_nontrivial counts distinct (call, file-system step, after/torn) crash-point classes reached; the journal is validated against the real directory after every transition"
 	} else {
 		r.Cov["rule"] = "same histories; at every event point of the last letter every combination of tail-loss cuts of every file with unsynced bytes (cut candidates: fsynced length, every append boundary since, torn lengths inside the last append, current length; 8-byte headers atomic) is materialised, opened with Recover and compared with the acknowledged-durable prefix (Sync results, Publish results under AutoSync, Close); distinct_nontrivial counts distinct (call, file-system step) points"
+	}
+	if prop == "C06" {
+		runDurableSched(r, tier)
 	}
 	r.Assumptions = []string{"fault model as fixed by the property: process crash keeps the page cache; power loss cuts each file independently to a length between its last fsynced length and its current length; directory operations are durable in program order; 8-byte file headers are atomic", "trusted: the os shim's journal (validated against the real directory after every transition), tmpfs"}
 	return r.Finish()
@@ -807,6 +823,112 @@ func runIndexSched(r *eng.Run, tier string) {
 	r.Cov["concurrent_rule"] = fmt.Sprintf("all pairs (and two triples) of first accesses (Get, Consume, GetByKey, Stat, Delete, GC) to a three-segment log whose index files were removed, every schedule up to %d preemptions under the cooperative scheduler; after Close every index file must equal the index derived from its log", bound)
 }
 
+// runBackupSched is the concurrent part of C20.
+func runBackupSched(r *eng.Run, tier string) {
+	// Not part of the registered check: C20 quantifies over sequential source states only, and
+	// on the unchanged tree a Backup that overlaps a Publish can copy a log and an index that
+	// do not match (DESIGN.md section 7). Kept as an experiment behind an environment knob.
+	if os.Getenv("VERIF_C20_CONCURRENT") == "" {
+		return
+	}
+	pool := eng.NewPool("schedx")
+	pool.Env = []string{"GOMAXPROCS=1"}
+	pool.Guard = 30 * time.Minute
+	pool.Start()
+	defer pool.Close()
+	bound := 2
+	if tier == "thorough" {
+		bound = 3
+	}
+	var tasks []schedx.Task
+	for _, p := range schedx.Programs20(tier) {
+		if f := os.Getenv("VERIF_PROG"); f != "" && !strings.Contains(p.String(), f) {
+			continue
+		}
+		b := bound
+		if p.IsTriple() {
+			b = bound - 1
+		}
+		tasks = append(tasks, schedx.Task{Prog: p, Bound: b, Budget: 200000, Judge: "lin"})
+	}
+	execs := 0
+	eng.Map(pool, tasks, func(i int, raw json.RawMessage, err error) {
+		if err != nil {
+			r.HarnessError(fmt.Sprintf("concurrent part: %s: %v", tasks[i].Prog, err))
+			return
+		}
+		var res schedx.TaskResult
+		if err := json.Unmarshal(raw, &res); err != nil || res.HarnessErr != "" {
+			r.HarnessError(fmt.Sprintf("concurrent part: %s: %v %s", tasks[i].Prog, err, res.HarnessErr))
+			return
+		}
+		execs += res.Executions
+		if !res.Exhausted {
+			r.Cap(fmt.Sprintf("concurrent part: %s: execution budget hit", tasks[i].Prog))
+		}
+		for _, f := range res.Findings {
+			if f.Kind == "nondeterminism" {
+				r.HarnessError(fmt.Sprintf("concurrent part: %s: %s", tasks[i].Prog, f.Msg))
+				continue
+			}
+			r.Report(eng.Violation{Sig: "concurrent: " + f.Kind + ": " + seqx.Signature(firstWords(f.Msg, 14)), Msg: fmt.Sprintf("%s in %s with %d preemptions", f.Msg, tasks[i].Prog, f.Preempt),
+				Replay: map[string]any{"engine": "schedx", "kind": f.Kind, "program": tasks[i].Prog, "choices": f.Choices, "expected_vs_observed": f.Msg}})
+		}
+	})
+	r.Cov["concurrent_programs"] = len(tasks)
+	r.Cov["concurrent_executions"] = execs
+	r.Cov["concurrent_rule"] = fmt.Sprintf("Log.Backup racing with Publish (with and without rollover), Delete (rebasing, emptying, head and sealed segments), GC, a lazy first read and another Backup, from three initial states, every schedule up to %d preemptions (triples %d) under the cooperative scheduler; the result of a Backup call is what its directory opens to (Check, Open(Check), cursor walk, NextOffset), and the call/return history must be linearizable: the backup is the log as it was at one moment between the call and its return", bound, bound-1)
+}
+
+// runDurableSched is the concurrent part of C06: Sync and AutoSync publishes racing with
+// publishes and deletes; every acknowledgement of durability is checked against every
+// tail-loss image of the moment it was given.
+func runDurableSched(r *eng.Run, tier string) {
+	pool := eng.NewPool("schedx")
+	pool.Env = []string{"GOMAXPROCS=1"}
+	pool.Guard = 30 * time.Minute
+	pool.Start()
+	defer pool.Close()
+	bound := 2
+	if tier == "thorough" {
+		bound = 3
+	}
+	var tasks []schedx.Task
+	for _, p := range schedx.Programs06(tier) {
+		if f := os.Getenv("VERIF_PROG"); f != "" && !strings.Contains(p.String(), f) {
+			continue
+		}
+		tasks = append(tasks, schedx.Task{Prog: p, Bound: bound, Budget: 200000, Judge: "durable"})
+	}
+	execs := 0
+	eng.Map(pool, tasks, func(i int, raw json.RawMessage, err error) {
+		if err != nil {
+			r.HarnessError(fmt.Sprintf("concurrent part: %s: %v", tasks[i].Prog, err))
+			return
+		}
+		var res schedx.TaskResult
+		if err := json.Unmarshal(raw, &res); err != nil || res.HarnessErr != "" {
+			r.HarnessError(fmt.Sprintf("concurrent part: %s: %v %s", tasks[i].Prog, err, res.HarnessErr))
+			return
+		}
+		execs += res.Executions
+		if !res.Exhausted {
+			r.Cap(fmt.Sprintf("concurrent part: %s: execution budget hit", tasks[i].Prog))
+		}
+		for _, f := range res.Findings {
+			if f.Kind == "nondeterminism" {
+				r.HarnessError(fmt.Sprintf("concurrent part: %s: %s", tasks[i].Prog, f.Msg))
+				continue
+			}
+			r.Report(eng.Violation{Sig: "concurrent: " + f.Kind + ": " + seqx.Signature(firstWords(f.Msg, 14)), Msg: fmt.Sprintf("%s in %s with %d preemptions", f.Msg, tasks[i].Prog, f.Preempt),
+				Replay: map[string]any{"engine": "schedx", "kind": f.Kind, "judge": "durable", "program": tasks[i].Prog, "choices": f.Choices, "expected_vs_observed": f.Msg}})
+		}
+	})
+	r.Cov["concurrent_programs"] = len(tasks)
+	r.Cov["concurrent_executions"] = execs
+	r.Cov["concurrent_rule"] = fmt.Sprintf("Sync (and Publish on an AutoSync log) racing with publishes (with and without rollover) and deletes, 2-3 threads, every schedule up to %d preemptions under the cooperative scheduler with the file-system journal recording; at the moment each Sync / AutoSync Publish returned w, every tail-loss image of the directory (as in the sequential part) is recovered on the real code and must hold every live message below w, nothing that was never published, and NextOffset >= w", bound)
+}
+
 func runLock(tier string) int {
 	r := eng.NewRun("C19", tier, "model_checking", "lockx")
 	// the state space is finite (publishes through a handle are bounded): depth 12 reaches the fixpoint
@@ -821,6 +943,9 @@ func runLock(tier string) int {
 		return r.Finish()
 	}
 	defer os.RemoveAll(root)
+	// a lock leaked by a failed Open would be released as soon as the collector finalises the
+	// dropped file: keep the collector out of the way (the search allocates little)
+	defer debug.SetGCPercent(debug.SetGCPercent(-1))
 	type out struct {
 		st  lockx.Start
 		res lockx.Result
